@@ -58,7 +58,12 @@ RULE = ('Hypothesis: FileSpec (1-4 dims of length 1-4, 1-4 numeric variables '
         'metadata keys untouched).  Non-trivial: a masked '
         'operand, or a cell producing or holding zero-division/inf/NaN, or '
         'an integer variable taking part, or >=2 predicates combined.  '
-        'Distinct by sha1 of the case spec.')
+        'Successive calls: in half of the cases 1-2 further calls with '
+        'independently drawn arguments (operators / assignments / predicate '
+        'sets) are applied to the SAME input objects and every result is '
+        'judged against the model of the ORIGINAL spec, so a call that '
+        'alters its input shows as a wrong later result (klass '
+        '@later-call).  Distinct by sha1 of the case spec.')
 ASSUMPTIONS = ['numpy ufuncs on the raw data are the reference for operator '
                'values; numpy.ma for eval',
                'character variables and unsigned dtypes are outside the '
@@ -191,26 +196,50 @@ def cases(draw, tier='quick'):
         entry = 'operator'
         if tier == 'thorough' and draw(st.integers(0, 3)) == 0:
             entry = 'pncbo'   # functional form, coordinate keys passed in
-        return dict(kind='op', file=fs, other=other, op=op,
+        more = [draw(st.sampled_from(OPS)) for i in range(draw(NMORE))]
+        return dict(kind='op', file=fs, other=other, op=op, more=more,
                     coords=draw(coordsets(fs)), entry=entry)
     if kind == 'eval':
         fs, operands = draw(twins(fs))
         byname = {v['name']: v for v in fs['vars']}
         allow_where = all(byname[n]['mask'] is None for n in operands)
-        nst = draw(st.integers(1, 2))
-        stmts = []
-        pool = list(operands)
-        for i in range(nst):
-            tgt = 'n%d' % i
-            stmts.append([tgt, draw(exprs(pool, draw(st.integers(1, 3)),
-                                          allow_where))])
-            pool = pool + [tgt]
-        sep = draw(st.sampled_from(['\n', '; ']))
-        return dict(kind='eval', file=fs, stmts=stmts, sep=sep,
-                    copyall=draw(st.booleans()), coords=draw(coordsets(fs)))
+        calls = []
+        for c in range(1 + draw(NMORE)):
+            nst = draw(st.integers(1, 2))
+            stmts = []
+            pool = list(operands)
+            for i in range(nst):
+                tgt = 'n%d' % i
+                stmts.append([tgt, draw(exprs(pool, draw(st.integers(1, 3)),
+                                              allow_where))])
+                pool = pool + [tgt]
+            calls.append(dict(stmts=stmts,
+                              sep=draw(st.sampled_from(['\n', '; '])),
+                              copyall=draw(st.booleans())))
+        return dict(kind='eval', file=fs, coords=draw(coordsets(fs)),
+                    more=calls[1:], **calls[0])
     # ---- mask
-    dlen = A.dlen_of(fs)
     coords = draw(coordsets(fs))
+    first = draw(maskargs(fs))
+    if tier == 'thorough' and draw(st.integers(0, 3)) == 0:
+        scalar = [p_ for p_ in first['preds'] if p_[0] != 'invalid']
+        if scalar:
+            # command-line string form 'less,2.5': one scalar predicate,
+            # applied in place to every variable that is not a metadata key
+            return dict(kind='mask', file=fs, preds=scalar[:1], where=None,
+                        coords=[], coordsflag=False, entry='mask_vals')
+    more = [draw(maskargs(fs)) for i in range(draw(NMORE))]
+    return dict(kind='mask', file=fs, coords=coords, more=more, **first)
+
+
+# number of further calls on the SAME input objects within one case
+NMORE = st.sampled_from([0, 0, 1, 1, 2])
+
+
+@st.composite
+def maskargs(draw, fs):
+    """one set of mask() arguments: predicates, where, coords flag"""
+    dlen = A.dlen_of(fs)
     hasint = any(v['dtype'][0] == 'i' for v in fs['vars'])
     pool = []
     for v in fs['vars']:
@@ -243,15 +272,7 @@ def cases(draw, tier='quick'):
             elif draw(st.integers(0, 3)) == 0:
                 x = x + 0.5
             preds.append([n, x])
-    if tier == 'thorough' and draw(st.integers(0, 3)) == 0:
-        scalar = [p_ for p_ in preds if p_[0] != 'invalid']
-        if scalar:
-            # command-line string form 'less,2.5': one scalar predicate,
-            # applied in place to every variable that is not a metadata key
-            return dict(kind='mask', file=fs, preds=scalar[:1], where=None,
-                        coords=[], coordsflag=False, entry='mask_vals')
-    return dict(kind='mask', file=fs, preds=preds, where=where,
-                coords=coords, coordsflag=draw(st.booleans()))
+    return dict(preds=preds, where=where, coordsflag=draw(st.booleans()))
 
 
 def strategy(tier):
@@ -326,23 +347,50 @@ def build(case):
 
 
 def check_case(case):
+    """The first call and every further call in case['more'] are applied to
+    the SAME input objects; each result is judged against the model of the
+    ORIGINAL spec, so a call that corrupts its input shows up as a wrong
+    later result (failures of later calls carry '@later-call')."""
     kind = case['kind']
+    r = Result()
+    m = S.model_of(case['file'])
+    f = build(case)
+    more = list(case.get('more') or [])
+    r.label('calls:%d' % (1 + len(more)))
     if kind == 'op':
-        return check_op(case)
-    if kind == 'eval':
-        return check_eval(case)
-    return check_mask(case)
+        objs = dict(ma=m, mb=S.model_of(case['other']), fa=f,
+                    fb=S.build_file(case['other']))
+        steps = [dict(case, op=o) for o in [case['op']] + more]
+        step = _op_step
+    elif kind == 'eval':
+        objs = dict(m=m, f=f)
+        steps = [dict(case, **c) for c in [{}] + more]
+        step = _eval_step
+    else:
+        objs = dict(m=m, f=f)
+        steps = [dict(case, **c) for c in [{}] + more]
+        step = _mask_step
+    nt = False
+    for i, sub in enumerate(steps):
+        n0 = len(r.failures)
+        step(r, sub, objs, i > 0)
+        nt = nt or r.nontrivial
+        if i > 0:
+            r.label('later-call-judged')
+            for fl in r.failures[n0:]:
+                fl.klass = (fl.klass + '@later-call') if fl.klass \
+                    else '@later-call'
+        if r.failures or r.rejected:
+            break
+    r.nontrivial = nt
+    return r
 
 
 # ------------------------------------------------------------------ operators
-def check_op(case):
-    r = Result()
+def _op_step(r, case, objs, later):
     op = case['op']
     r.label('kind:op', 'op:' + op)
-    ma = S.model_of(case['file'])
-    mb = S.model_of(case['other'])
-    fa = build(case)
-    fb = S.build_file(case['other'])
+    ma, mb, fa, fb = objs['ma'], objs['mb'], objs['fa'], objs['fb']
     coords = list(case.get('coords') or [])
     fn = OPF[op]
     nt = False
@@ -408,7 +456,9 @@ def check_op(case):
         from PseudoNetCDF.core._functions import pncbo
         r.label('entry:pncbo')
         # the functional form takes the coordinate keys as an argument
-        fa = S.build_file(case['file'])
+        if 'fa_plain' not in objs:
+            objs['fa_plain'] = S.build_file(case['file'])
+        fa = objs['fa_plain']
         exc, out = attempt(lambda: pncbo(op, fa, fb, coordkeys=coords))
     else:
         exc, out = attempt(lambda: fn(fa, fb))
@@ -462,12 +512,10 @@ def check_op(case):
 
 
 # ------------------------------------------------------------------ eval
-def check_eval(case):
-    r = Result()
+def _eval_step(r, case, objs, later):
     r.label('kind:eval', 'copyall:%s' % bool(case['copyall']),
             'stmts:%d' % len(case['stmts']))
-    m = S.model_of(case['file'])
-    f = build(case)
+    m, f = objs['m'], objs['f']
     src = case['sep'].join('%s = %s' % (t, render(e))
                            for t, e in case['stmts'])
     targets = [t for t, e in case['stmts']]
@@ -478,7 +526,8 @@ def check_eval(case):
             exec(compile(src, '<model>', 'exec'), env, ns)
         except (ValueError, ZeroDivisionError, TypeError) as e:
             r.label('numpy-raises:' + type(e).__name__)
-            r.rejected = True
+            if not later:
+                r.rejected = True
             return r
     used = set()
 
@@ -547,11 +596,9 @@ def check_eval(case):
 
 
 # ------------------------------------------------------------------ mask
-def check_mask(case):
-    r = Result()
+def _mask_step(r, case, objs, later):
     r.label('kind:mask')
-    m = S.model_of(case['file'])
-    f = build(case)
+    m, f = objs['m'], objs['f']
     coords = list(case.get('coords') or [])
     cflag = bool(case.get('coordsflag'))
     preds = [(n, v) for n, v in case['preds']]
@@ -744,8 +791,9 @@ def _eval_operands(spec):
         for x in e[1:]:
             if isinstance(x, list):
                 walk(x)
-    for t, e in spec['stmts']:
-        walk(e)
+    for call in [spec] + list(spec.get('more') or []):
+        for t, e in call['stmts']:
+            walk(e)
     byname = {v['name']: v for v in spec['file']['vars']}
     return [byname[n] for n in used if n in byname]
 
